@@ -1,4 +1,5 @@
 import PyModeS.Models
+import PyModeS.Spec.CPR
 import Driver.Fmt
 open PyModeS Driver
 
@@ -16,6 +17,35 @@ def fmtVel (v : Velocity) : String :=
   joinBar [fmtOpt fmtInt v.spd, fmtDir v.dir, fmtOpt fmtInt v.vs, v.spdType, v.dirType, v.vrSource]
 
 def fmt3 (x : Nat × Option Rat × Option Rat) : String := joinBar [fmtNat x.1, fmtOR x.2.1, fmtOR x.2.2]
+
+def bytesOfHex (s : String) : List Nat :=
+  let rec go : List Char → List Nat
+    | a :: b :: rest => (hexVal a * 16 + hexVal b) :: go rest
+    | _ => []
+  go s.toList
+
+def splitAt (l : List Nat) (cuts : List Nat) : List (List Nat) :=
+  let rec go (l : List Nat) (pos : Nat) : List Nat → List (List Nat)
+    | [] => [l]
+    | c :: cs => if c ≤ pos then go l pos cs else (l.take (c - pos)) :: go (l.drop (c - pos)) c cs
+  go l 0 cuts
+
+def parseCuts (s : String) : List Nat := if s == "-" then [] else (s.splitOn ",").filterMap String.toNat?
+
+def fmtMsgs (l : List Msg) : String := if l.isEmpty then "-" else ",".intercalate (l.map String.ofList)
+
+def feedOp (fmt : Fmt) (raw cuts : String) : String :=
+  fmtMsgs (feedAll fmt (splitAt (bytesOfHex raw) (parseCuts cuts)) [] []).1
+
+/-- `ns m1,m2;m3;...`: calls of handle_messages; prints what is sent per call and the pending buffers -/
+def nsOp (calls : String) : String :=
+  let cs := (calls.splitOn ";").map (fun c => if c == "-" then [] else (c.splitOn ",").map String.toList)
+  let (s, outs) := cs.foldl (fun (acc : NetSrc × List String) c =>
+    let (s', sent) := nsHandle acc.1 c
+    (s', acc.2 ++ [match sent with
+      | some (a, b) => "S:" ++ fmtMsgs a ++ "/" ++ fmtMsgs b
+      | none => "N"])) (⟨[], []⟩, [])
+  ";".intercalate outs ++ "|P:" ++ fmtMsgs s.adsb ++ "/" ++ fmtMsgs s.commb
 
 /-- placeholder for `aero.mach2cas(mach, alt*ft)/kts`: filled in by Driver.Aero -/
 def iasOfMachStub (_ : Rat) (_ : Int) : Rat := 0
@@ -36,6 +66,7 @@ def handle (iasOfMach : Rat → Int → Rat) (ws : List String) : String :=
   | ["idcode", m] => fmtRes fmtDigits (idcode m.toList)
   | ["allzeros", m] => fmtRes fmtBool (allzerosB (hex2bin m))
   | ["cprNL", x] => fmtNat (cprNL (rat! x))
+  | ["ns", calls] => nsOp calls
   | [op, m] =>
     let b := hex2bin m
     match op with
@@ -144,11 +175,17 @@ def handle (iasOfMach : Rat → Int → Rat) (ws : List String) : String :=
       let e := fun (o : Option Nat) => match o with | some n => fmtNat n | none => "''"
       joinBar [e f.di, fmtStr f.ic, fmtBool f.los, e f.pr, e f.rr, e f.rrs, fmtStr f.bds]
     | _ => "BAD-OP"
+  | ["feed_beast", raw, cuts] => feedOp .beast raw cuts
+  | ["feed_raw", raw, cuts] => feedOp .raw raw cuts
+  | ["feed_skysense", raw, cuts] => feedOp .skysense raw cuts
   | ["nic_v1", m, s] => fmtRes fmt3 (nicV1 (hex2bin m) s.toNat!)
   | ["nic_v2", m, a, bc] =>
     fmtRes (fun r => match r with | some (n, rc) => joinBar [fmtNat n, fmtOR rc] | none => "None|None")
       (nicV2 (hex2bin m) a.toNat! bc.toNat!)
   | ["sil", m, v] => fmtRes (fun r => joinBar [fmtOR r.1, fmtOR r.2.1, r.2.2]) (sil (hex2bin m) v.toNat?)
+  | ["cpr_encode", base, i, la, lo] =>
+    let e := Spec.cprEncode cprNL (rat! base) i.toNat! (rat! la) (rat! lo)
+    joinBar [fmtNat e.yz, fmtNat e.xz, fmtRat e.rlat, fmtRat e.rlon]
   | ["airborne_position", m0, m1, t0, t1] =>
     fmtRes (fmtOpt fmtPos) (airbornePosition (hex2bin m0) (hex2bin m1) (rat! t0) (rat! t1))
   | ["surface_position", m0, m1, t0, t1, la, lo] =>
